@@ -212,6 +212,49 @@ func c20CheckStorage(w *World, res *CaseResult) error {
 	if err := expectHealthy(cold, "fresh storage with everything preloaded"); err != nil {
 		return err
 	}
+	// the same slabs in the library's in-memory storage (BasicSlabStorage): accepted, true roots; its Encode() gives back
+	// the registers; one deleted referenced slab and one added unreferenced slab are rejected
+	{
+		basic := atree.NewBasicSlabStorage(cborEncMode, cborDecMode, decodeStorable, decodeTypeInfo)
+		for _, id := range sortedIDs(regs) {
+			sl, err := atree.DecodeSlab(id, regs[id], cborDecMode, decodeStorable, decodeTypeInfo)
+			if err != nil {
+				return viol("harness", "register %s does not decode: %v", id, err)
+			}
+			if err := basic.Store(id, sl); err != nil {
+				return viol("harness", "%v", err)
+			}
+		}
+		if err := expectHealthy(basic, "in-memory storage (BasicSlabStorage) holding the same slabs"); err != nil {
+			return err
+		}
+		enc, err := basic.Encode()
+		if err != nil || regsDigest(enc) != regsDigest(regs) {
+			return viol("health-basic", "BasicSlabStorage.Encode() does not give back the registers it was filled from (error %v): %v", err, diffRegs(regs, enc))
+		}
+		var victim atree.SlabID
+		for _, id := range sortedIDs(regs) {
+			if len(g.parents[id]) > 0 {
+				victim = id
+				break
+			}
+		}
+		if victim != atree.SlabIDUndefined {
+			saved, _, _ := basic.Retrieve(victim)
+			_ = basic.Remove(victim)
+			if _, err := atree.CheckStorageHealth(basic, len(rootIDs)); err == nil {
+				return viol("health-accept", "CheckStorageHealth accepted an in-memory storage whose referenced slab %s was removed", victim)
+			}
+			_ = basic.Store(victim, saved)
+			stray := freshID(regs, victim.Address(), 77)
+			_ = basic.Store(stray, mintSlab(stray, 5))
+			if _, err := atree.CheckStorageHealth(basic, len(rootIDs)); err == nil {
+				return viol("health-accept", "CheckStorageHealth accepted an in-memory storage with an unreferenced slab beyond the expected root count")
+			}
+			obs["corruptions-rejected"] += 2
+		}
+		obs["in-memory-storages-checked"]++
+	}
 	// all-child-references query on healthy storages
 	for _, rid := range rootIDs {
 		refs, broken, err := cold.GetAllChildReferences(rid)
